@@ -229,11 +229,11 @@ CLAIMED = {
               "both sides of the break at 1.1) and geometries with P/D and W/D on opposite sides of it.  The Lean iteration model (Model/FlowSplit.lean, iterStep) is run by the native driver on the inputs of "
               "real _iterate calls and must reproduce the fixed point the code returns."),
         note=COMMON_NOTE + ("T1 trace of _calc_constant_flowsplits; the iteration update is a hand model of the last lines "
-                            "of _iterate validated by the oracle.  SE2 and MIT splits: the real calculate_flow_split is traced, every real power is replaced by a variable "
-                            "and the translator checks (obligation) that the powers come in reciprocal pairs; Gen/C12Geo mass_se2 / mass_mit "
-                            "prove mass conservation under the pair relations, Props/C12 c12_rpow_pair_neg / _inv prove those relations for "
-                            "Real.rpow and c12_mass_se2 / c12_mass_mit put the real powers back.  The Novendstern split and the "
-                            "friction/mixing correlations are covered by the oracle only.  Nine genuine defects (combinations that cannot be evaluated, NaN "
+                            "of _iterate validated by the oracle.  SE2, MIT and Novendstern splits: the real calculate_flow_split is traced, every real power is replaced by a variable "
+                            "and the translator checks (obligations) that each is a power of a quotient of two variables or one of a pair x^e, "
+                            "x^-e; Gen/C12Geo mass_se2 / mass_mit / mass_nov prove mass conservation under those relations, Props/C12 "
+                            "c12_rpow_pair_neg / c12_rpow_quot prove the relations for Real.rpow and c12_mass_se2 / _mit / _nov put the real "
+                            "powers back.  The friction and mixing correlations are covered by the oracle only.  Nine genuine defects (combinations that cannot be evaluated, NaN "
                             "friction factor, the approximate transition split not equalising the gradients, UCTD split with "
                             "CTD friction) are recorded in known_findings.json by call site."),
         technique="Lean 4 proof (field_simp; Real.rpow algebra) over traced split + hand update model + exhaustive combination oracle",
